@@ -89,8 +89,11 @@ func (self *Interpreter) callFunc(span errors.Span, val value.Value, args []ast.
 			argsOut[arg.Name] = &argCell
 		}
 
-		// push a scope into the closure
-		closure.Scopes = append(closure.Scopes, argsOut)
+		// push a scope into the closure (every call gets a scope stack of its own: `append` on the captured slice
+		// could hand the same slot to two calls which are active at the same time, e.g. in a recursion)
+		callScopes := make([]map[string]*value.Value, len(closure.Scopes), len(closure.Scopes)+1)
+		copy(callScopes, closure.Scopes)
+		closure.Scopes = append(callScopes, argsOut)
 		self.callStackSize++
 
 		// use the closure's scopes as the scopes of the current module
